@@ -17,5 +17,17 @@ TEXTS = {
         "level_note": "Trusts the denotational evaluator (h/ref.go EvalEx; shares hdrhistogram with zenodb for PERCENTILE) and the translation from the case's expression AST to expr constructors.",
         "technique": "property-based testing (rapid) + bounded exhaustive enumeration, model oracle",
     },
+    "C03": {
+        "level_text": "Exploration with a metamorphic oracle: hundreds to thousands of generated (schema, points, schedule pair, queries) cases per run; no reference values are needed, so every expression and query shape the grammar produces is covered. Finds flush/merge/restart defects that need a particular split of a key's periods between file and memory. Does not establish absence; timer-driven flush instants are not owned by the harness (they only add schedules).",
+        "design_ref": "DESIGN.md section 4 C03",
+        "level_note": "Trusts the ingestion barrier (verif hooks) and the clock alignment hook; compares a database with itself under two schedules, so a defect that affects every schedule alike is C01's to find.",
+        "technique": "property-based testing (rapid), metamorphic relation between storage schedules",
+    },
+    "C04": {
+        "level_text": "Exploration with a before/after differential: generated datasets, storage splits and (Q, probe) query pairs; any write through a query shows up as a changed probe result, immediately or after the next flush. Does not establish absence.",
+        "design_ref": "DESIGN.md section 4 C04",
+        "level_note": "Trusts that the harness is the only writer and the ingestion barrier; the probe set (SELECT * of every table plus a generated query) decides what 'stored data' is observable.",
+        "technique": "property-based testing (rapid), before/after differential oracle",
+    },
 }
 NOT_APPLICABLE = []
